@@ -1308,10 +1308,17 @@ impl Run {
                 let h = self.ctx.new_handle();
                 self.gated("g9", "current_missing", false, Job::Open(h), |r| {
                     r.seq_open();
-                    r.probe_all();
+                    for _ in 0..4 {
+                        r.probe_all();
+                    }
                     r.listing();
                 });
                 self.listing();
+                self.probe_all();
+                // whatever the parked opener did when it went on: what the owner of the window
+                // wrote has to be there after a close and reopen
+                self.seq_close_all();
+                self.seq_open();
                 self.probe_all();
                 self.intruders();
                 self.probe_all();
